@@ -4,8 +4,10 @@ Decided: for every concrete class (children = variables, every arity 0..3/4, n u
 bases below/at/above 1 and e), for composite and shared (DAG) instances and for the
 bare-number entry point, the term computed by abstractly interpreting Expression.at from
 source is, on every sign region of the variables, the same real function as the
-specification reading of the tree (canonical forms in ALGEBRA).  Not decided: the size of
-floating-point rounding and the exactness clause for small integers/dyadics.
+specification reading of the tree (canonical forms in ALGEBRA).  Exactness clause (C01.exact):
+for the arithmetic constructors every floating-point operation on the evaluation path must
+produce an exact intermediate of the tree (no inexact reciprocal, logarithm ... in between).
+Not decided: the size of floating-point rounding.
 """
 from __future__ import annotations
 import math
@@ -39,6 +41,131 @@ def composite_instances():
     ]
 
 
+# ---------------------------------------------------------------- exactness clause
+EXACT_CLASSES = ("Add", "Multiply", "Minus", "Divide", "Negation", "Reciprocal", "NthPower")
+
+
+def exact_instances():
+    vs = [("Variable", n) for n in ("x", "y", "z", "w")]
+    out = []
+    for k in range(0, 5):
+        out.append((("Add", vs[:k]), f"Add/{k}"))
+        out.append((("Multiply", vs[:k]), f"Multiply/{k}"))
+    out += [(("Minus", vs[0], vs[1]), "Minus"), (("Divide", vs[0], vs[1]), "Divide"),
+            (("Negation", vs[0]), "Negation"), (("Reciprocal", vs[0]), "Reciprocal")]
+    out += [(("NthPower", vs[0], n), f"NthPower/n={n}") for n in (1, 2, 3, 4, 5)]
+    return out
+
+
+def exact_intermediates(tree):
+    """The exact intermediates of a depth-1 tree read as real arithmetic (terms): any rounding
+    the implementation performs must produce one of these (or a leaf)."""
+    import itertools
+    k = tree[0]
+    leaves = [("h", c[1]) for c in spec.children(tree)]
+    out = list(leaves) + [("c", 0), ("c", 1)]
+    if k in ("Add", "Multiply"):
+        head = "add" if k == "Add" else "mul"
+        for r in range(2, len(leaves) + 1):
+            for sub in itertools.combinations(leaves, r):
+                out.append((head,) + sub)
+    elif k == "Minus":
+        out.append(("add", leaves[0], ("neg", leaves[1])))
+    elif k == "Divide":
+        out.append(("div", leaves[0], leaves[1]))
+    elif k == "Reciprocal":
+        out.append(("div", ("c", 1), leaves[0]))
+    elif k == "NthPower":
+        out += [("powi", leaves[0], j) for j in range(2, int(tree[2]) + 1)]
+    return out
+
+
+def rounding_subterms(term, acc):
+    """Every sub-term that is the result of a floating-point operation (negation is exact and is
+    looked through)."""
+    if not isinstance(term, tuple) or term[0] in ("h", "c"):
+        return acc
+    if term[0] != "neg":
+        acc.append(term)
+    for a in term[1:]:
+        rounding_subterms(a, acc)
+    return acc
+
+
+def exact_case(args):
+    """Worker: the value term of a depth-1 instance on each sign region (generic path) and the list
+    of its rounded sub-terms that are not exact intermediates of the tree."""
+    from ..harness import build, make_point, run_paths
+    from ..regions import IV
+    from ..values import SymNum
+    from ..algebra import compare_terms
+    tree, region = args
+    model = load_model()
+    names = spec.variables(tree)
+    iv = IV(1.0, math.inf, False, True) if region == ">1" else IV(-math.inf, -1.0, True, False)
+    val = {n: iv for n in names}
+
+    def thunk(it):
+        e = build(it, tree, {})
+        return it.call(it.getattr(e, "at"), [make_point(it, val)], {})
+    res = []
+    allowed = exact_intermediates(tree)
+    signs = spec.signs_from_valuation(val)
+    for o in run_paths(model, thunk, max_paths=8):
+        if o["kind"] != "return" or o["imprecise"] or not isinstance(o["value"], (int, SymNum)):
+            res.append({"status": "not-judged", "kind": o["kind"]})
+            continue
+        term = SymNum.of(o["value"]).term
+        extra = []
+        for sub in rounding_subterms(term, []):
+            verdicts = []
+            for a in allowed:
+                for cand in (a, ("neg", a)):
+                    verdicts.append(compare_terms(sub, cand, signs)[0])
+                if "equal" in verdicts[-2:]:
+                    break
+            if "equal" in verdicts:
+                continue
+            extra.append({"term": repr(sub), "definite": all(v == "differ" for v in verdicts)})
+        res.append({"status": "ok" if not extra else "extra-rounding", "term": repr(term), "extra": extra})
+    return res
+
+
+def check_exact(rep, model):
+    insts = [(t, l) for (t, l) in exact_instances() if t[0] in model.classes]
+    cases = [(t, r) for (t, l) in insts for r in (">1", "<-1")]
+    results = pmap(exact_case, cases)
+    for (tree, label), pair in zip(insts, zip(results[0::2], results[1::2])):
+        construct = f"{tree[0]}.at"
+        bad = None
+        judged = 0
+        for res in pair:
+            for r in res:
+                if r["status"] == "not-judged":
+                    rep.count("exactness_paths_not_judged")
+                    continue
+                judged += 1
+                if r["status"] == "extra-rounding" and bad is None:
+                    bad = r
+        if bad is not None:
+            definite = [e for e in bad["extra"] if e["definite"]]
+            if definite:
+                rep.violation("C01.exact", construct, model.cls(tree[0]).where,
+                              f"{spec.show(tree)} is computed as {bad['term']}: the rounded intermediate "
+                              f"{definite[0]['term']} is not an exact intermediate of the tree, so a result whose exact "
+                              f"intermediates are all small integers or dyadic rationals is no longer guaranteed to be "
+                              f"returned exactly (e.g. an inexact reciprocal or logarithm in between)",
+                              witness=bad, witness_class=f"extra rounding in {label}")
+            else:
+                rep.unknown("C01.exact", construct, "", f"{label}: cannot relate intermediate {bad['extra'][0]['term']} "
+                                                         f"to the tree's exact intermediates")
+        elif judged:
+            rep.ok("C01.exact", label, model.cls(tree[0]).where,
+                   "every floating-point operation on the evaluation path produces an exact intermediate of the tree "
+                   "(a partial sum/product, the difference, the quotient, a lower power) or is an exact negation: with "
+                   "representable exact intermediates every IEEE operation is exact", cases=judged)
+
+
 def judge(rep, tree, label, val, results, api):
     k = tree[0]
     for r in results:
@@ -48,8 +175,10 @@ def judge(rep, tree, label, val, results, api):
             continue
         rep.count("paths_interpreted")
         construct = f"{k}.at" if ":" not in label else label
-        if api == "number":
+        if api.startswith("number"):
             construct += "(number)"
+        if api == "number-after-reuse":
+            construct += " after its nodes became operands of other expressions"
         if api == "at-after-other":
             construct += " after evaluations at other points"
         if st == "unsupported":
@@ -67,7 +196,7 @@ def judge(rep, tree, label, val, results, api):
             rep.count("paths_not_judged_undecided_branch")
         elif st == "value-unknown":
             rep.unknown("C01.value", construct, "", f"{r['tree']} at {{{r['val']}}}: {r['reason']}")
-        elif st in ("spurious-raise", "wrong-exception", "not-a-number", "complex") and api == "number":
+        elif st in ("spurious-raise", "wrong-exception", "not-a-number", "complex") and api.startswith("number"):
             rep.violation("C01.entry", construct, r.get("origin", ""),
                           f"{r['tree']}.at(<number>) with {{{r['val']}}}: expected {r.get('expected')}, got "
                           f"{r.get('exc') or r.get('got')}", witness=r, witness_class=st)
@@ -106,13 +235,19 @@ def check(rep):
         if len(names) == 1:
             for val in valuations(names, atoms):
                 cases.append((tree, label, val, "number"))
+    # ... and the same after the expression's nodes were used as operands of other expressions
+    for tree, label in inst1:
+        names = spec.variables(tree)
+        if len(names) == 1:
+            for val in valuations(names, coarse):
+                cases.append((tree, label, val, "number-after-reuse"))
     results = pmap(eval_case, [(t, v, api) for (t, l, v, api) in cases])
     per = {}
     for (tree, label, val, api), res in zip(cases, results):
         before = len(rep.violations) + len(rep.inconclusive)
         judge(rep, tree, label, val, res, api)
         ok = (len(rep.violations) + len(rep.inconclusive)) == before
-        key = (label, "C01.entry" if api == "number" else "C01.value")
+        key = (label, "C01.entry" if api.startswith("number") else "C01.value")
         d = per.setdefault(key, [0, 0])
         d[0] += 1
         d[1] += 1 if ok else 0
@@ -126,12 +261,16 @@ def check(rep):
         t, l, v, api = cases[i]
         rep.sample({"instance": spec.show(t), "regions": region_class(v), "entry": api,
                     "result": [r.get("got") or r.get("exc") or r.get("status") for r in results[i]]})
+    check_exact(rep, model)
+    rep.require_floor("C01.exact", 15, "arithmetic instances")
     for k in unknown_classes:
         rep.assume(f"class {k} has no row in the specification table and is not judged")
     rep.require_floor("C01.value", 15, "class/composite instances")
     rep.require_floor("C01.entry", 8, "one-variable classes through the bare-number entry")
-    rep.assume("floating-point rounding and the 'exact on small integers/dyadics' clause are not decided "
-               "(they are facts about float arithmetic, not about the shape of this code)",
+    rep.assume("the size of floating-point rounding is not decided (a fact about float arithmetic, not about the shape "
+               "of this code); the exactness clause is decided for the arithmetic constructors through its structural "
+               "part: no floating-point operation other than the tree's own (C01.exact), given IEEE-754 "
+               "correctly rounded + - * / and exact small integer powers",
                "the specification table (spec.value_term) is the mathematical reading stated in the property")
     return rep.finish(
         explanation="Abstract interpretation of Expression.at from source yields, per sign region, a "
